@@ -1363,7 +1363,7 @@ fn channels() -> Vec<Channel> {
         Channel { name: "json.coneenc", tol: Tol::Exact, run: run_coneenc, oracle: Some(oracle_coneenc), modelled: true,
             rust_fn: "Serialize for Vec<SupportedConeT<f64>> (serde derive)", lean: "JsonCones.encodeCones / C19.cone_decode_encode" },
         Channel { name: "json.load", tol: Tol::Exact, run: run_load, oracle: Some(oracle_load), modelled: true,
-            rust_fn: "load_from_file (post-parse validation, settings override, DefaultSolver::new) on a parsed record written with an independent JSON writer",
+            rust_fn: "load_from_file (post-parse validation: DefaultSettings::validate -> validate_direct_solve_method, validate_chordal_decomposition_merge_method; settings override, DefaultSolver::new) on a parsed record written with an independent JSON writer",
             lean: "JsonLoad.loadRecord / C19.load_validated_implies_new_preconditions, load_error_kinds" },
     ]
 }
